@@ -18,6 +18,8 @@ LblIv == <<105, 118>>    \* "iv"
 LblTrafficUpd == <<116, 114, 97, 102, 102, 105, 99, 32, 117, 112, 100>>    \* "traffic upd"
 LblFinished == <<102, 105, 110, 105, 115, 104, 101, 100>>    \* "finished"
 LblExporter == <<101, 120, 112, 111, 114, 116, 101, 114>>    \* "exporter"
+LblExtBinder == <<101, 120, 116, 32, 98, 105, 110, 100, 101, 114>>    \* "ext binder"
+LblResBinder == <<114, 101, 115, 32, 98, 105, 110, 100, 101, 114>>    \* "res binder"
 SenderClient == <<67, 76, 78, 84>>    \* "CLNT"  (0x434C4E54)
 SenderServer == <<83, 82, 86, 82>>    \* "SRVR"  (0x53525652)
 
@@ -128,6 +130,12 @@ KeyUpdate13(T, h, secret, keyLen) ==
 \* 4.4.4 finished_key = HKDF-Expand-Label(BaseKey, "finished", "", Hash.length); verify_data = HMAC(finished_key, Transcript-Hash)
 Finished13(T, h, baseKey, msgs) ==
   Hmac(T, h, HkdfExpandLabel(T, h, baseKey, LblFinished, <<>>, HashLen(h)), Hash(T, h, msgs))
+\* 7.1 Early Secret = HKDF-Extract(0, PSK); binder_key = Derive-Secret(Early Secret, "ext binder" | "res binder", "")
+\* 4.2.11.2 the PSK binder is computed as the Finished message (4.4.4) with BaseKey = binder_key
+PskBinder(T, h, psk, external, msgs) ==
+  LET early == HkdfExtract(T, h, Zeros(HashLen(h)), psk)
+      bk == DeriveSecret(T, h, early, IF external THEN LblExtBinder ELSE LblResBinder, <<>>)
+  IN Finished13(T, h, bk, msgs)
 \* 7.5 TLS-Exporter(label, context_value, key_length) =
 \*       HKDF-Expand-Label(Derive-Secret(Secret, label, ""), "exporter", Hash(context_value), key_length)
 Exporter13(T, h, secret, label, context, n) ==
